@@ -39,7 +39,13 @@ func diffRoutes(a, b []route) []string {
 		aDstMap[r.dst] = r
 	}
 	var result []string
+	seen := make(map[spec]bool)
 	for _, r := range b {
+		// Ignore route, that occurs more than once.
+		if seen[r.spec] {
+			continue
+		}
+		seen[r.spec] = true
 		if aMap[r.spec] {
 			delete(aMap, r.spec)
 			continue
